@@ -1,7 +1,7 @@
 (* C04 -- non-vacuity: concrete reachable states meet the hypotheses of the theorems. *)
 From Coq Require Import List Arith Lia Bool.
 From Verif.lib Require Import FinSet.
-From Verif.C04 Require Import Model Proofs ProofsFun ProofsMesh ProofsQuery ProofsClosure Boundary Supports.
+From Verif.C04 Require Import Model Proofs ProofsFun ProofsMesh ProofsQuery ProofsClosure Boundary Supports Children ProofsChildren ProofsParents ProofsDisparity ProofsDisparityD.
 Import ListNotations.
 
 (* 2-D, degrees (2,1), 3x2 coarse cells, disparity 1; marks on two levels in one call,
@@ -148,3 +148,42 @@ Proof. vm_compute. reflexivity. Qed.
 Example ex_multi_level_query_test :
   map (@length mi) (compute_supports ex_st [[]; [[0;1]]; [[0;0]]]) = [0; 1; 4].
 Proof. vm_compute. reflexivity. Qed.
+
+(* hypotheses of children_closed / children_inside_parent_support: a deactivated function of level 0
+   with 4 children (a corner function), all of them active or deactivated on level 1 *)
+Example ex_children_hyp :
+  In [0;0] (DF ex_st 0) /\ length (function_children ex_st 0 [[0;0]]) = 4 /\
+  forallb (fun g => mem g (AF ex_st 1) || mem g (DF ex_st 1)) (function_children ex_st 0 [[0;0]]) = true.
+Proof. split; [by_mem|]. vm_compute. split; reflexivity. Qed.
+
+(* hypotheses of disparity_admissible_d1 / every_function_has_parent on the example (disparity 1, all
+   multiplicities >= 1, all calls with the default marking); ex_st has 3 levels with active cells on levels 1 and 2 (ex_state) *)
+Example ex_axes_pos : Forall axis_pos ex_axes.
+Proof. repeat constructor; simpl; try lia; discriminate. Qed.
+
+Example ex_ops_default : Forall op_default ex_ops.
+Proof. repeat constructor. Qed.
+
+Example ex_admissible : admissible ex_axes (Some 1) ex_ops 1.
+Proof. apply disparity_admissible_d1_l; [exact ex_axes_ok | exact ex_axes_pos | exact ex_ops_valid | exact ex_ops_default]. Qed.
+
+(* the same for disparity 2: a four-call chain (4 levels, so k + 2 < j occurs) *)
+Definition ex_ops2 := [
+  Refine [(0, (CList, [[0;0]; [1;0]]))] false;
+  Refine [(1, (CSet, [[0;0]]))] false;
+  Refine [(2, (CTuple, [[0;0]]))] false ].
+
+Example ex_ops2_valid : ops_valid (hs_init ex_axes (Some 2)) ex_ops2.
+Proof.
+  unfold ex_ops2. cbn [ops_valid op_valid]. repeat split.
+  - intros k c H. destruct k as [|k]; simpl in H; [|destruct H]. solve_in H.
+  - intros k c H. destruct k as [|[|k]]; simpl in H; [destruct H | solve_in H | destruct H].
+  - intros k c H. destruct k as [|[|[|k]]]; simpl in H; [destruct H | destruct H | solve_in H | destruct H].
+Qed.
+
+Example ex_admissible_d2 :
+  numlevels (run (hs_init ex_axes (Some 2)) ex_ops2) = 4 /\ admissible ex_axes (Some 2) ex_ops2 2.
+Proof.
+  split; [vm_compute; reflexivity|].
+  apply disparity_admissible_l; [exact ex_axes_ok | exact ex_axes_pos | lia | exact ex_ops2_valid | repeat constructor].
+Qed.
